@@ -16,6 +16,10 @@ Ops (one answer line each; strings percent-encoded):
       reload g=<0|1> eps=<M@url[@rflags@dflags];…|-> [now=1]  -> ma=<0|1> n=<k> eps=<e1;e2;…|-> | err | err:manage
                                                        (now=1: unmanageImmediately, the fail-safe reverts)
       fail put=<k> del=<j>                          -> ok        (the admin server refuses the next k PUTs / j DELETEs)
+      txn id=<t>                                    -> ok        (a request leg reaches the engine: anchored)
+      txn? id=<t>                                   -> expired | all=<0|1> n=<k> set=<…> tma=<0|1> teps=<…>
+                                                       (the proxy's map; the request of the version the engine still
+                                                        serves the transaction from)
       advance ms=<n>                                -> ok        (mock clock; due un-manage jobs fire)
       managed?                                      -> all=<0|1> n=<k> set=<e1;…|-> fma=<0|1> feps=<e1;…|->
                                                        (the proxy's map; the request of the policies IN FORCE)
@@ -108,6 +112,20 @@ def runStep (s : RunSt) (line : String) : RunSt × String :=
                      else Reload.reload s.rmode s.rl req
           ({ s with rl := rl' }, if ok then fmtBuild cfg else "err:manage")
     | _, _ => (s, "bad-op")
+  | ["txn", w1] =>
+    match kv [w1] "id" with
+    | some id => if s.mode != 3 then (s, "bad-op") else ({ s with rl := Reload.anchorTxn s.rl id }, "ok")
+    | none => (s, "bad-op")
+  | ["txn?", w1] =>
+    match kv [w1] "id" with
+    | some id =>
+      if s.mode != 3 then (s, "bad-op")
+      else match Reload.txnView s.rl id with
+        | none => (s, "expired")
+        | some req =>
+          let te := (req.eps.map pctEnc).mergeSort (fun a b => decide (a ≤ b))
+          (s, s!"all={if s.rl.all then 1 else 0} {fmtSet s.rl.managed} tma={if req.ma then 1 else 0} teps={if te.isEmpty then "-" else String.intercalate ";" te}")
+    | none => (s, "bad-op")
   | "fail" :: ws =>
     match kvNat ws "put", kvNat ws "del" with
     | some p, some d =>
@@ -211,6 +229,18 @@ def judgeStep (s : JudgeSt) (op out : String) : JudgeSt :=
     | some d => if out == "ok" then { s with hist := { s.hist with now := s.hist.now + d } }
                 else { s with bad := some ("advance:" ++ pctEnc out) }
     | none => s
+  | ["txn?", _] =>
+    if out == "expired" then s else
+    let ows := words out
+    match kv ows "all", kv ows "set", kv ows "tma", kv ows "teps" with
+    | some all, some set, some tma, some teps =>
+      let req : Reload.Req := ⟨tma == "1", parseSet teps⟩
+      match Reload.observeTxn (some req) (all == "1") (parseSet set) with
+      | .violated why =>
+        if s.worst.isSome then s
+        else { s with worst := some s!"- {why} t={s.hist.now} missing={String.intercalate ";" ((Reload.missing req (all == "1") (parseSet set)).map pctEnc)}" }
+      | _ => s
+    | _, _, _, _ => { s with bad := some ("unparsable-output:" ++ pctEnc out) }
   | ["managed?"] =>
     let ows := words out
     match kv ows "all", kv ows "set", kv ows "fma", kv ows "feps" with
